@@ -356,6 +356,36 @@ func c28CheckProofs(rt *rapid.T, rec *ev.Rec, env c28Env, acc hexary.Accumulator
 		if err := c28FreshVerifier(hd).Add(int64(k), hash, altered); err == nil {
 			rt.Fatalf("C28 violated: %s: n=%d verifier ACCEPTS key %d with alteration %q (proof of %d elements)", phase, n, k, name, len(altered))
 		}
+		// the same altered input presented to a verifier that already holds the nodes on this key's path
+		// (it accepted the genuine proof before, as a syncing node that receives the data twice does).
+		// Only alterations that keep the proof length are decided here: a shortened full proof is a
+		// legitimate delta proof for a tree that has the omitted nodes.
+		switch name {
+		case "flipByte", "wrongHash", "otherKeyProof", "truncateNode", "extendNode", "oddNode":
+			warm := c28FreshVerifier(hd)
+			if rapid.Bool().Draw(rt, "warmBySameKey") {
+				if err := warm.Add(int64(k), leaves[k], c28Clone(full)); err != nil {
+					rt.Fatalf("C28 violated: %s: n=%d verifier rejects the proof of key %d: %v", phase, n, k, err)
+				}
+			} else {
+				// warmed by a neighbour: shares the upper nodes of the path only
+				o := k ^ 1
+				if o >= n {
+					o = k
+				}
+				po, err := prover.Prove(int64(o), 0)
+				if err != nil {
+					rt.Fatalf("C28 violated: %s: n=%d Prove(%d,0) error %v", phase, n, o, err)
+				}
+				if err := warm.Add(int64(o), leaves[o], c28Clone(po)); err != nil {
+					rt.Fatalf("C28 violated: %s: n=%d verifier rejects the proof of key %d: %v", phase, n, o, err)
+				}
+			}
+			rec.Label("alter:warmVerifier")
+			if err := warm.Add(int64(k), hash, c28Clone(altered)); err == nil {
+				rt.Fatalf("C28 violated: %s: n=%d a verifier that already holds this path ACCEPTS key %d with alteration %q (proof of %d elements)", phase, n, k, name, len(altered))
+			}
+		}
 	}
 }
 
